@@ -86,6 +86,10 @@ Theorem response_bytes_any_framing r r' :
   body_of (s_frames (client_resp_of r)) = body_of (s_frames (client_resp_of r')).
 Proof. intros H H' E. unfold client_resp_of. cbn [s_frames]. rewrite !body_preserved; auto. Qed.
 
+(* a host body that ended in an error is never presented to the client as a complete one *)
+Theorem truncation_not_hidden r : s_aborted (client_resp_of r) = s_aborted r.
+Proof. reflexivity. Qed.
+
 (* status and headers: only the marker name is touched *)
 Theorem response_head r :
   s_status (client_resp_of r) = s_status r /\
